@@ -491,7 +491,20 @@ def _head_exprs(s):
         return ['test']
     if isinstance(s, (ast.For, ast.AsyncFor)):
         return ['iter']
+    if isinstance(s, (ast.With, ast.AsyncWith)) and s.items:
+        return ['<with0>']
     return []
+
+
+def _head_get(s, fld):
+    return s.items[0].context_expr if fld == '<with0>' else getattr(s, fld)
+
+
+def _head_set(s, fld, v):
+    if fld == '<with0>':
+        s.items[0].context_expr = v
+    else:
+        setattr(s, fld, v)
 
 
 def _first_helper_call(P, f, expr, new):
@@ -600,7 +613,7 @@ def _process_block(P, f, stmts, new, state):
         for _round in range(6):
             hit = None
             for fld in _head_exprs(s):
-                e = getattr(s, fld)
+                e = _head_get(s, fld)
                 hit = _first_helper_call(P, f, e, new)
                 if hit:
                     hit = (fld,) + hit
@@ -628,7 +641,7 @@ def _process_block(P, f, stmts, new, state):
                 break
             repl = ast.copy_location(ast.Name(id=tgt, ctx=ast.Load()), node)
             if parent is None:
-                setattr(s, fld, repl)
+                _head_set(s, fld, repl)
             elif idx is None:
                 setattr(parent, pfield, repl)
             else:
@@ -1070,6 +1083,18 @@ def normalise_calls(P):
                 del P.funcs[t]
             P.absorbed_funcs = absorbed
             stats['absorbed'] = sorted(absorbed)
+            # integrity of the expansion: every generated name that is read is also bound in the same function
+            import re as _re
+            for (q, _t) in state['expanded']:
+                f = P.funcs.get(q)
+                if f is None:
+                    continue
+                loads = {x.id for x in ast.walk(f.node) if isinstance(x, ast.Name) and isinstance(x.ctx, ast.Load) and _re.search(r'__h\d+$', x.id)}
+                stores = {x.id for x in ast.walk(f.node) if isinstance(x, ast.Name) and isinstance(x.ctx, (ast.Store, ast.Del))} | \
+                         {a.arg for a in ast.walk(f.node) if isinstance(a, ast.arg)}
+                if loads - stores:
+                    from .loader import AnalysisError
+                    raise AnalysisError(f'{q}: helper expansion left {sorted(loads - stores)} unbound (analyser fault, no verdict)')
     return stats
 
 
